@@ -376,13 +376,20 @@ def build_ocaml(pid, driver, extract_vo):
 # findings, violations, evidence
 
 def load_findings():
-    """known_findings.json (committed) + per-property files known_findings.d/<ID>.json (same format)."""
-    out = []
-    p = os.path.join(VERIF, "known_findings.json")
-    if os.path.exists(p):
-        out += json.load(open(p)).get("findings", [])
-    for q in sorted(glob.glob(os.path.join(VERIF, "known_findings.d", "*.json"))):
-        out += json.load(open(q)).get("findings", [])
+    """known_findings.json (committed, merged view) + per-property sources known_findings.d/<ID>.json
+    (same format; an id present in both is taken once, the per-property file winning)."""
+    out, seen = [], set()
+    files = sorted(glob.glob(os.path.join(VERIF, "known_findings.d", "*.json"))) + \
+        [os.path.join(VERIF, "known_findings.json")]
+    for q in files:
+        if not os.path.exists(q):
+            continue
+        for f in json.load(open(q)).get("findings", []):
+            k = (f.get("property"), f.get("id"))
+            if k in seen:
+                continue
+            seen.add(k)
+            out.append(f)
     return out
 
 
